@@ -277,6 +277,13 @@ func (f *Frame) bitop(st *State, op token.Token, a, b Val, t types.Type, bits in
 
 // convert encodes the Go conversion T(v).
 func (f *Frame) convert(st *State, v Val, to types.Type, pos token.Pos) Val {
+	if v.T == "nil" {
+		// T(nil) for a slice, map, pointer or interface type: the zero value of T
+		switch f.typ(to).Underlying().(type) {
+		case *types.Slice, *types.Map, *types.Pointer, *types.Interface, *types.Signature, *types.Chan:
+			return Val{T: f.c.sorts.Zero(f.typ(to)), Ty: f.typ(to)}
+		}
+	}
 	to = f.typ(to)
 	from := v.Ty
 	if from == nil {
@@ -654,7 +661,10 @@ func (f *Frame) evalBinary(st *State, x *ast.BinaryExpr) Val {
 			st.env, st.pc, st.gh = m.env, m.pc, m.gh
 		} else {
 			// keep facts learned while evaluating b only as guarded facts
-			extra := st2.pc[len(st.pc)+1:]
+			var extra []string
+			if len(st2.pc) > len(st.pc)+1 {
+				extra = st2.pc[len(st.pc)+1:]
+			}
 			guard := a.T
 			if x.Op == token.LOR {
 				guard = not(a.T)
@@ -1183,6 +1193,33 @@ func (f *Frame) evalCompositeLit(st *State, x *ast.CompositeLit) Val {
 			}
 			if !found && ss.Pruned {
 				panic(needField{ss.Sort, name})
+			}
+		}
+		// `assert at lit:<Type> [label] e`: proved where a value of the named struct type is built; the
+		// expression may name the literal's fields (bound to the values being stored) and the function's
+		// variables in scope
+		if n, ok := t.(*types.Named); ok && f.top && f.contract != nil {
+			for _, a := range f.contract.Asserts {
+				if a.Anchor != "lit:"+n.Obj().Name() {
+					continue
+				}
+				env := f.loopSpecEnv(st)
+				for j, fl := range ss.Fields {
+					if fl.Name != "" && !strings.HasPrefix(fl.Name, "#") {
+						if outer, ok := env.names[fl.Name]; ok {
+							env.names["caller_"+fl.Name] = outer
+						}
+						env.names[fl.Name] = Val{T: vals[j], Ty: f.typ(fl.Type)}
+					}
+				}
+				k := f.c.counters["assert:"+a.Clause.Label]
+				f.c.counters["assert:"+a.Clause.Label] = k + 1
+				func() {
+					defer f.specGuard(x, "assert at "+a.Anchor)
+					tm := f.specBool(st, a.Clause.Expr, env)
+					f.oblige(st, "assert", fmt.Sprintf("%s@%s#%d", a.Clause.Label, n.Obj().Name(), k), tm, x.Pos(), a.Clause.Src)
+					st.assume(tm)
+				}()
 			}
 		}
 		if len(vals) == 0 {
